@@ -30,6 +30,44 @@ def union_program(rng):
             "def y: Int? := None\n")
 
 
+def hierarchy_program(rng):
+    """class hierarchies whose members collide by name: fields and methods re-declared at other types down the chain,
+    two parents declaring the same member, followed by uses whose verdict depends on WHICH declaration is found"""
+    val = {"Int": "1", "Str": "\"one\"", "Bool": "True"}
+    depth = rng.randint(2, 3)
+    names = ["H%d" % i for i in range(depth)]
+    members = ["label", "size0", "tag"]
+    decl = {}
+    lines = []
+    for i, c in enumerate(names):
+        head = "class %s" % c + (": %s" % names[i - 1] if i else "")
+        lines.append(head)
+        body = 0
+        for m in members:
+            if i == 0 or rng.random() < 0.6:
+                t = rng.choice(["Int", "Str", "Bool"])
+                decl[(c, m)] = t
+                lines.append("    def %s: %s := %s" % (m, t, val[t]))
+                body += 1
+        if rng.random() < 0.7:
+            t = rng.choice(["Int", "Str"])
+            decl[(c, "get")] = t
+            lines.append("    def get(fin self) -> %s => %s" % (t, val[t]))
+            body += 1
+        if not body:
+            lines.append("    def pad%d: Int := 0" % i)
+    if rng.random() < 0.4:
+        t1, t2 = rng.sample(["Int", "Str", "Bool"], 2)
+        lines += ["class P1", "    def both: %s := %s" % (t1, val[t1]), "class P2", "    def both: %s := %s" % (t2, val[t2]), "class Two: P1, P2", "    def own: Int := 0",
+                  "def w := Two()", "def wb: %s := w.both" % rng.choice([t1, t2])]
+    for k in range(rng.randint(2, 5)):
+        c = rng.choice(names)
+        m = rng.choice(members + ["get()"])
+        t = rng.choice(["Int", "Str", "Bool"])
+        lines += ["def o%d := %s()" % (k, c), "def r%d: %s := o%d.%s" % (k, t, k, m)]
+    return "\n".join(lines) + "\n"
+
+
 def run(chk):
     thorough = chk.tier == "thorough"
     ok = chk.build_harness()
@@ -70,6 +108,7 @@ def run(chk):
     acc = gen_prog.accepted_samples(chk)
     progs += (acc if thorough else rng.sample(acc, min(len(acc), 15)))
     progs += [gen_prog.Gen(rng).program().text for _ in range(40 if thorough else 6)]
+    progs += [hierarchy_program(rng) for _ in range(150 if thorough else 40)]
     K, P = (12, 6) if thorough else (4, 3)
     ids = []
     for i, t in enumerate(progs):
@@ -105,5 +144,5 @@ def run(chk):
                          "programs": len(progs), "repetitions_per_program": K * P, "processes": P, "comparisons": n_cmp}
     chk.cov["evaluations"] = n_cmp
     chk.cov["distinct_nontrivial"] = len(distinct)
-    chk.cov["rule"] = "distinct accepted programs compared over all repetitions; programs: classes with interleaved fields/methods and class arguments, unions/tuples/optionals, generated programs and repository samples"
+    chk.cov["rule"] = "distinct accepted programs compared over all repetitions; programs: classes with interleaved fields/methods and class arguments, unions/tuples/optionals, class hierarchies with members re-declared at other types and two parents declaring the same member, generated programs and repository samples"
     chk.cov["not_proved"] = "the unifier's order sensitivity (check/constrain/unify) is explored by repetition, not proved; the name lattice's order independence is theorem C20.order_indep"
